@@ -180,7 +180,10 @@ func (rd *reader) owners(rule string, f *types.Var, allowed ...string) {
 			}
 		}
 		if direct {
-			writers[shortFn(fn)] = true
+			// a helper extracted by a later refactoring writes on behalf of the functions it is inlined into
+			for _, h := range c.hostsOf(fn) {
+				writers[shortFn(h)] = true
+			}
 		}
 	}
 	ok := true
@@ -196,7 +199,7 @@ func (rd *reader) owners(rule string, f *types.Var, allowed ...string) {
 // decoding, mask-key threading, the FIN flag and the RSV1 flag.
 func (rd *reader) parserRules(ruleLen, ruleMask, ruleFin, ruleDec string) {
 	c, r := rd.c, rd.c.R
-	full := core.Opts{Unroll: 0, RecordLoads: true, Inline: rd.inl()}
+	full := core.Opts{Unroll: 0, RecordLoads: true, Inline: rd.inl(), ConstLoops: true}
 
 	// ---- len-classes, mask-thread(a), final-flag, inflate-iff-rsv1(a) on accepted paths of advanceFrame
 	okL, whyL := true, "extension width and decoder agree with the 7-bit length class on every accepted path"
@@ -271,6 +274,15 @@ func (rd *reader) parserRules(ruleLen, ruleMask, ruleFin, ruleDec string) {
 						}
 					}
 					if !found {
+						// a hand-written decoder (shift/or over the bytes, executed concretely by the engine): the stored
+						// value must evaluate to the big-endian integer of the bytes just read, for sample byte strings
+						for _, v := range remStores {
+							if bigEndianOf(p.X, strip(v), extP, int(width)) {
+								found = true
+							}
+						}
+					}
+					if !found {
 						okL, whyL = false, fmt.Sprintf("the extended length after 7-bit length %d is not decoded with %s from the bytes just read and stored as the remaining count (stores: %v, bytes: %v)", want, dec, remStores, extP)
 					}
 					reads = reads[1:]
@@ -307,9 +319,38 @@ func (rd *reader) parserRules(ruleLen, ruleMask, ruleFin, ruleDec string) {
 				}
 			}
 		}
+		// element-wise key copy (for i := range key { key[i] = p[i] }), executed concretely
+		elemCopy := false
+		if keyCopy == nil && len(reads) > 0 {
+			kp := p.X.ExtractOf(reads[0].Result, 0, nil)
+			got := 0
+			for i := range p.Events {
+				ev := &p.Events[i]
+				if ev.Kind != core.EvStore || ev.Addr.Kind != core.KIndexAddr || !addrUnder(ev.Addr, rd.readMaskKey) {
+					continue
+				}
+				k, isC := ev.Addr.Args[1].Int64()
+				v := strip(ev.Val)
+				if isC && v.Kind == core.KLoad && v.Args[0].Kind == core.KIndexAddr && v.Args[0].Args[0] == kp {
+					if j, isJ := v.Args[0].Args[1].Int64(); isJ && j == k && k >= 0 && k < 4 {
+						got |= 1 << uint(k)
+						continue
+					}
+				}
+				got = -1 << 8 // a store of something else into the key
+			}
+			elemCopy = got == 15
+		}
 		switch {
 		case len(masked) != 1:
 			okM, whyM = false, "an accepted path of advanceFrame does not branch on the MASK bit"
+		case masked[true] && elemCopy:
+			if n, isC := reads[0].Args[1].Int64(); !isC || n != 4 {
+				okM, whyM = false, "mask key read is not 4 bytes"
+			}
+			if !posReset {
+				okM, whyM = false, "masked frame accepted without resetting readMaskPos to 0 on the same path (the next frame would be unmasked from a rotated key position)"
+			}
 		case masked[true]:
 			if keyCopy == nil || len(reads) == 0 {
 				okM, whyM = false, "masked frame accepted without copying its key into readMaskKey"
@@ -392,4 +433,43 @@ func (rd *reader) parserRules(ruleLen, ruleMask, ruleFin, ruleDec string) {
 	r.Check(ruleFin, shortFn(rd.advance), "readFinal-is-FIN-of-data-frames", rd.advance.Pos(), okF, whyF)
 	r.Check(ruleDec, shortFn(rd.advance), "readDecompress-is-RSV1", rd.advance.Pos(), okD, whyD)
 
+}
+
+// bigEndianOf: term v, evaluated with the bytes of slice p replaced by sample
+// values, equals the big-endian integer of p[0:n] (as a 64-bit pattern).
+func bigEndianOf(x *core.Explorer, v, p *core.Term, n int) bool {
+	samples := [][]uint64{{0x01, 0x02, 0x03, 0x04, 0x05, 0x06, 0x07, 0x08}, {0xff, 0x00, 0x80, 0x7f, 0x10, 0xfe, 0x01, 0xaa}, {0x00, 0x00, 0x00, 0x00, 0x00, 0x01, 0x00, 0x00}, {0x7f, 0xff, 0xff, 0xff, 0xff, 0xff, 0xff, 0xff}}
+	used := false
+	for _, smp := range samples {
+		leaf := func(t *core.Term) (constant.Value, bool) {
+			if t.Kind == core.KLoad && t.Args[0].Kind == core.KIndexAddr && t.Args[0].Args[0] == p {
+				if i, isC := t.Args[0].Args[1].Int64(); isC && i >= 0 && int(i) < n {
+					used = true
+					return constant.MakeUint64(smp[i]), true
+				}
+			}
+			return nil, false
+		}
+		got, ok := x.Eval(v, leaf)
+		if !ok {
+			return false
+		}
+		want := uint64(0)
+		for i := 0; i < n; i++ {
+			want = want<<8 | smp[i]
+		}
+		g, exact := constant.Uint64Val(constant.ToInt(got))
+		if !exact {
+			// negative int64 results (top bit set): compare as two's complement
+			if gi, isI := constant.Int64Val(constant.ToInt(got)); isI {
+				g = uint64(gi)
+			} else {
+				return false
+			}
+		}
+		if g != want {
+			return false
+		}
+	}
+	return used
 }
